@@ -932,6 +932,11 @@ class ANF:
                     env[f.value.id] = ("op", "++", env[f.value.id], ("list", (args[0],)))
                 if f.attr == "get" and len(args) == 1 and not kw:
                     args = args + [C(None)]         # mapping.get(k) is mapping.get(k, None)
+                if f.attr == "update" and len(args) == 1 and not kw and args[0][0] == "dict" and not _setlike(recv) \
+                        and all(k_[0] == "c" and isinstance(k_[1], str) for k_, _ in args[0][1]):
+                    # d.update({"a": x, "b": y}) is d["a"] = x; d["b"] = y: the stores are recorded next to the call
+                    for k_, v_ in args[0][1]:
+                        self.ev("store", e, cond, loops, base=recv, index=(k_,), value=v_, aug=False, target=e, aug_op=None, aug_operand=None)
                 if f.attr == "setdefault" and len(args) == 2 and not kw:
                     # d.setdefault(k, v) is d[k] = d.get(k, v): the store is recorded next to the call
                     self.ev("store", e, cond, loops, base=recv, index=(args[0],), value=("call", ("attr", recv, "get"), (args[0], args[1]), ()),
